@@ -35,14 +35,23 @@ def grid(rng, n):
     return [round(x0 + i * h, 6) for i in range(n)]
 
 
+INT_LITERALS = False     # set per scenario: whole numbers are written without a decimal point ("0", "-2": Perl treats the string "0" as false)
+
+
+def lit(v):
+    if INT_LITERALS and v == int(v) and abs(v) < 1e15:
+        return str(int(v))
+    return repr(v)
+
+
 def write_table(path, xs, ys, flags, errs=None):
     with open(path, "w") as f:
         f.write("# generated\n")
         for i in range(len(xs)):
             if errs is None:
-                f.write("%r %r %s\n" % (xs[i], ys[i], flags[i]))
+                f.write("%r %s %s\n" % (xs[i], lit(ys[i]), flags[i]))
             else:
-                f.write("%r %r %r %s\n" % (xs[i], ys[i], errs[i], flags[i]))
+                f.write("%r %s %s %s\n" % (xs[i], lit(ys[i]), lit(errs[i]), flags[i]))
 
 
 def read_table(path):
@@ -126,7 +135,19 @@ def scenario(rng, sid):
         elif what == "shift":
             typ = rng.choice(["non-bonded", "bond", "angle", "dihedral"])
             ys = [num(rng, "pot") for _ in range(n)]
+            # one table in three is an already shifted one (its minimum over the valid rows, or its last value, is exactly zero) or holds
+            # whole numbers, written the way the scripts print them: "0", "-2"
+            global INT_LITERALS
+            if rng.random() < 0.33:
+                INT_LITERALS = True
+                iv = [ys[i] for i in range(n) if flags[i] == "i"]
+                if iv and rng.random() < 0.7:
+                    m0 = min(iv)
+                    ys = [y - m0 for y in ys]
+                else:
+                    ys = [float(round(y)) for y in ys]
             write_table(os.path.join(d, "in"), xs, ys, flags)
+            INT_LITERALS = False
             rc = perl(d, "potential_shift.pl", ["--type", typ, "in", "out"])
             line = "%s %s %d %s" % (head, typ, n, " ".join("%s %s %s" % (me(xs[i]), me(ys[i]), flags[i]) for i in range(n)))
         elif what == "smooth":
